@@ -20,9 +20,15 @@ def rand_vine_table(rng, d_lo, d_hi, n_lo=60, n_hi=300):
                       for _ in range(d)],
             'pattern': rng.choice(PATTERNS)}
     r = rng.random()
-    if r < 0.15:
+    if r < 0.12:
+        # columns of different kinds: some binary / few-valued (heavy ties), some continuous -
+        # the tie correction of Kendall's tau then matters for the ORDER of the pairwise |tau|
+        spec['levels'] = [rng.choice([None, None, 2, 3, 5]) for _ in range(d)]
+        if all(v is None for v in spec['levels']):
+            spec['levels'][rng.randrange(d)] = 2
+    elif r < 0.24:
         spec['round'] = rng.choice([1, 2])          # ties in the data
-    elif r < 0.25 and d >= 3:
+    elif r < 0.34 and d >= 3:
         spec['tie_cols'] = True                     # exactly tied pairwise tau values
     return spec
 
@@ -42,6 +48,11 @@ def make_table(spec):
             df[c] = df[c].to_numpy()[perm]
     if spec.get('round'):
         df = df.round(spec['round'])
+    if spec.get('levels'):
+        for col, lv in zip(df.columns, spec['levels']):
+            if lv:
+                q = pd.qcut(df[col], lv, labels=False, duplicates='drop')
+                df[col] = q.astype(float) * 1.5 + 1.0
     if spec.get('tie_cols') and df.shape[1] >= 3:
         # exact tie tau(c0,c2) == tau(c1,c2) without extreme dependence: c1 is c0 in reversed
         # row order and c2 is symmetric under row reversal, so reversing the rows maps the
